@@ -248,10 +248,13 @@ def stop_rule_check(out, A64, Q0_64, max_iter, tol, u, gen, C=256.0, n_probes=3,
     J = set()
     if work_dtype is not None and work_dtype != D:
         Aw, Qw, raw_w = A64.to(work_dtype), Q0_64.to(work_dtype), []
-        for j in range(1, max_iter + 1):
-            last, Qw = Qw, torch.linalg.qr(Aw @ Qw).Q
-            raw_w.append(float((last - Qw).norm() / last.norm()))
-        J |= stops(raw_w)
+        try:
+            for j in range(1, max_iter + 1):
+                last, Qw = Qw, torch.linalg.qr(Aw @ Qw).Q
+                raw_w.append(float((last - Qw).norm() / last.norm()))
+            J |= stops(raw_w)
+        except RuntimeError:
+            pass  # no QR kernel for this dtype: the probe adds nothing
     for raw, al in rels:
         J |= stops(raw) | stops(al)
         J |= set(range(min(stops(al)), max(stops(raw)) + 1)) if stops(al) and stops(raw) else set()  # any mixture of flipped / unflipped columns
